@@ -98,6 +98,10 @@ def _states_base(tier, seed):
         if p == "CC" and k == "g1":
             continue
         cells.append({"kind": k, "heavyness": "total", "process": p, "scheme": "ZM-VFNS", "pto": 1, "tmc": tmc})
+    # interpolation settings alternate INSIDE one process (log / linear, degree 2 / 3): whatever a compiled kernel froze at its first compilation
+    # (a module global, a closure cell) shows as a difference to the interpreter, which re-reads it on every call
+    for k, p, tmc in (("F2", "NC", 0), ("FL", "CC", 0), ("F3", "CC", 1), ("g1", "NC", 3)):
+        out.append({"t": "e2e", "cells": [{"kind": k, "heavyness": "total", "process": p, "scheme": "ZM-VFNS", "pto": 1, "tmc": tmc, "grid": g} for g in ("G6", "L7", "G9", "L7", "G6")]})
     if tier == "thorough":
         for k, p, sc in itertools.product(["F2", "FL", "F3"], ["NC", "CC"], ["FFN03", "FONLL-FFNS4", "FFNS4"]):
             cells.append({"kind": k, "heavyness": "total", "process": p, "scheme": sc, "pto": 1, "tmc": 0})
@@ -158,12 +162,21 @@ def _call(f, args):
         return "domain", type(e).__name__
     except IndexError as e:
         return "index", str(e)
+    except Exception as e:  # noqa
+        if type(e).__name__ == "TypingError":
+            return "typing", str(e)[:80]  # a lazily compiled kernel refuses the guessed argument types: not an admissible argument
+        raise
 
 
 def _kernel(st):
     d = _dispatchers()[st["name"]]
-    sig = d.nopython_signatures[0]
-    ats = [str(a) for a in sig.args]
+    if d.nopython_signatures:
+        sig = d.nopython_signatures[0]
+        ats = [str(a) for a in sig.args]
+    else:
+        # lazily compiled kernel (no declared signature): the lattice is chosen from the arity of the Python function, the calling conventions of this code base
+        sig = "(lazy)"
+        ats = {1: ["float64"], 2: ["float64", "array(float64, 1d, C)"], 3: ["int64", "int64", "float64"]}.get(d.py_func.__code__.co_argcount, ["?"])
     lat = []
     dense = bool(st.get("dense"))
     if len(ats) == 2 and ats[0] == "float64" and "rray" in ats[1]:
@@ -185,7 +198,7 @@ def _kernel(st):
     for args in lat:
         sp, vp = _call(d.py_func, args)
         sc, vc = _call(d, args)
-        if sp == "index" or sc == "index":
+        if sp == "index" or sc == "index" or sc == "typing":
             # generic vectors may be shorter than what a kernel needs only if it needs > 3 entries: reported by the caller states; skip here
             continue
         # classes: finite value / not finite (NaN, inf or a domain error such as log of a non-positive number, division by zero)
